@@ -44,7 +44,7 @@ pub struct Case {
 }
 
 fn key_shape() -> impl Strategy<Value = KeyShape> {
-    prop_oneof![8 => Just(KeyShape::Good), 1 => Just(KeyShape::NonHex), 1 => Just(KeyShape::OddLength), 1 => Just(KeyShape::GuidPathNew), 1 => Just(KeyShape::GuidPathExisting), 1 => Just(KeyShape::Hex512), 1 => Just(KeyShape::Hex128)]
+    prop_oneof![8 => Just(KeyShape::Good), 1 => Just(KeyShape::NonHex), 1 => Just(KeyShape::OddLength), 1 => Just(KeyShape::GuidPathNew), 1 => Just(KeyShape::GuidPathExisting), 1 => (0u8..3).prop_map(KeyShape::GuidSpecial), 1 => Just(KeyShape::Hex512), 1 => Just(KeyShape::Hex128)]
 }
 
 fn client() -> impl Strategy<Value = Client> {
